@@ -70,6 +70,11 @@ type c15Scene struct {
 	MapSeed  uint32    `json:"mapseed"`
 	Cells    []c15Cell `json:"cells,omitempty"`
 	Objs     []c15Obj  `json:"objs,omitempty"` // OAM order; the remaining entries are zero (hidden)
+	// PreOn > 0: the LCD first shows the scene for PreOn machine cycles, is switched off and on again, and only
+	// then the judged frames run - nothing of the interrupted frame may leak into them. Frames: how many frames
+	// run after the (last) switch-on before the image is taken (0 = 3).
+	PreOn  int `json:"pre_on,omitempty"`
+	Frames int `json:"frames,omitempty"`
 }
 
 type c15Rand struct{ s uint64 }
@@ -88,6 +93,7 @@ type c15Flat struct {
 	vram                                    [0x2000]uint8
 	oam                                     [160]uint8
 	lcdc, scx, scy, wx, wy, bgp, obp0, obp1 uint8
+	preOn, frames                           int
 }
 
 func c15Validate(s *c15Scene) error {
@@ -99,6 +105,9 @@ func c15Validate(s *c15Scene) error {
 	}
 	if len(s.Objs) > 40 {
 		return fmt.Errorf("%d objects", len(s.Objs))
+	}
+	if s.PreOn < 0 || s.PreOn > 3*c13Frame || s.Frames < 0 || s.Frames > 4 {
+		return fmt.Errorf("pre_on %d / frames %d", s.PreOn, s.Frames)
 	}
 	var cover [144]int
 	for i, o := range s.Objs {
@@ -134,7 +143,7 @@ func c15Validate(s *c15Scene) error {
 }
 
 func c15Build(s *c15Scene) *c15Flat {
-	f := &c15Flat{lcdc: s.LCDC, scx: s.SCX, scy: s.SCY, wx: s.WX, wy: s.WY, bgp: s.BGP, obp0: s.OBP0, obp1: s.OBP1}
+	f := &c15Flat{lcdc: s.LCDC, scx: s.SCX, scy: s.SCY, wx: s.WX, wy: s.WY, bgp: s.BGP, obp0: s.OBP0, obp1: s.OBP1, preOn: s.PreOn, frames: s.Frames}
 	r := &c15Rand{s: uint64(s.TileSeed)}
 	for t := 0; t < 384; t++ {
 		mode := s.TileFill
@@ -417,7 +426,18 @@ func c15Emit(f *c15Flat) (*machine.M, error) {
 	m.Mp.Write(0xff48, f.obp0)
 	m.Mp.Write(0xff49, f.obp1)
 	m.Mp.Write(0xff40, f.lcdc)
-	for i := 0; i < 3*c13Frame; i++ {
+	if f.preOn > 0 {
+		for i := 0; i < f.preOn; i++ {
+			m.HW()
+		}
+		m.Mp.Write(0xff40, f.lcdc&^0x80)
+		m.Mp.Write(0xff40, f.lcdc)
+	}
+	frames := f.frames
+	if frames <= 0 {
+		frames = 3
+	}
+	for i := 0; i < frames*c13Frame; i++ {
 		m.HW()
 	}
 	fr := m.P.Frame()
@@ -752,6 +772,10 @@ func c15SceneGen(maxObjs int, objectsOn int) *rapid.Generator[c15Scene] {
 		if maxObjs > 0 {
 			s.Objs = c15Normalise(rapid.SliceOfN(c15ObjGen, 0, maxObjs).Draw(rt, "objs"))
 		}
+		if rapid.IntRange(0, 2).Draw(rt, "prehistory") == 0 {
+			s.PreOn = rapid.IntRange(1, 2*c13Frame).Draw(rt, "pre_on")
+			s.Frames = rapid.IntRange(1, 3).Draw(rt, "frames")
+		}
 		return s
 	})
 }
@@ -858,7 +882,7 @@ func TestC15(t *testing.T) {
 	c := vf.New(t, "C15", "rapid scenes inside the statement's preconditions by construction (LCD+BG on, 8x8 objects sorted by X in OAM, <= 10 per line, WX 7-166): tile data = seeded fill "+
 		"(zero / planes equal / one plane / random / mixed) + explicit tiles, both maps (seeded fill + explicit cells), both addressing modes, any SCX/SCY/BGP/OBP0/OBP1, window on/off with WY 0-160, "+
 		"0-40 objects at any position incl. beyond each edge, any attribute byte, OBJ enable on/off; campaign 'backgrounds' has no objects, 'scenes' up to 40, 'crowded' forces objects on with up to 40. "+
-		"Loaded with the LCD off, three frames on machine.HW(), all 23040 pixels of PPU.Frame() compared with the reference renderer through shade->RGBA values calibrated on four flat scenes. "+
+		"Loaded with the LCD off, three frames on machine.HW() (in a third of the scenes the LCD first shows the scene for a drawn part of a frame, is switched off and on again, and 1-3 frames follow), all 23040 pixels of PPU.Frame() compared with the reference renderer through shade->RGBA values calibrated on four flat scenes. "+
 		"Non-trivial: the reference shows >= 2 distinct background/window colour ids and >= 1 visible object pixel. Distinct = hash of the scene.")
 	defer c.Flush()
 	c.RunReplays()
